@@ -690,12 +690,13 @@ Proof.
   destruct (len r + 1 + 1 + 1 + 1 <? 5 + d4) eqn:En; [discriminate|].
   assert (E1 : (len r <? d4 + 1) = false) by lia. rewrite E1.
   intro H. apply bind_ok in H. destruct H as (nh' & Hnh & H).
-  assert (E2 : negb (existsb (N.eqb d4) [4; 16; 32; 12; 24]) && negb ((d4 =? 0) && is_flowspec (be16 d1 d2 * 65536 + d3)) = false).
+  assert (E2 : negb (existsb (N.eqb d4) [4; 16; 32; 12; 24; 48]) && negb ((d4 =? 0) && is_flowspec (be16 d1 d2 * 65536 + d3)) = false).
   { cbn [existsb]. destruct (d4 =? 0) eqn:E0.
     - destruct (is_flowspec _); [apply andb_false_r|discriminate].
     - cbn [andb negb]. rewrite andb_true_r.
       destruct ((d4 =? 4) || (d4 =? 16) || (d4 =? 32)) eqn:Ea; [lia|].
-      destruct ((d4 =? 12) || (d4 =? 24)) eqn:Eb; [lia|discriminate]. }
+      destruct ((d4 =? 12) || (d4 =? 24)) eqn:Eb; [lia|].
+      destruct (d4 =? 48) eqn:Ec; [lia|discriminate]. }
   rewrite E2.
   destruct (get8 (skipn (nat_of d4) r)) as [[rsv d5]|] eqn:G; cbn [must bind] in H; [|discriminate].
   apply get8_skipn in G. subst d5.
@@ -714,7 +715,7 @@ Proof.
   destruct d as [|d1 [|d2 [|d3 [|d4 r]]]]; try (rewrite ?len_cons, ?len_nil in E5; lia).
   cbn [get16 get8 must bind]. rewrite !len_cons.
   destruct (len r <? d4 + 1) eqn:E1; [reflexivity|].
-  destruct (negb (existsb (N.eqb d4) [4; 16; 32; 12; 24]) && negb ((d4 =? 0) && is_flowspec (be16 d1 d2 * 65536 + d3))) eqn:E2;
+  destruct (negb (existsb (N.eqb d4) [4; 16; 32; 12; 24; 48]) && negb ((d4 =? 0) && is_flowspec (be16 d1 d2 * 65536 + d3))) eqn:E2;
     [reflexivity|].
   unfold nlri_field.
   destruct (fam_lookup (c_fams cd) (be16 d1 d2 * 65536 + d3)) as [ap|] eqn:Ef; cbn [req bind]; [|reflexivity].
@@ -722,12 +723,14 @@ Proof.
   assert (Hnh : exists nh, (if d4 =? 0 then if is_flowspec (be16 d1 d2 * 65536 + d3) then Ok None else Fail E_OPT_ATTR
            else if (d4 =? 4) || (d4 =? 16) || (d4 =? 32) then Ok (nexthop_norm (firstn (nat_of d4) r))
            else if (d4 =? 12) || (d4 =? 24) then Ok (nexthop_norm (skipn 8 (firstn (nat_of d4) r)))
+           else if d4 =? 48 then Ok (nexthop_norm (firstn 16 (skipn 8 r) ++ firstn 16 (skipn 32 r)))
            else Fail E_OPT_ATTR) = Ok nh).
   { cbn [existsb] in E2. destruct (d4 =? 0) eqn:E0.
     - destruct (is_flowspec _); [eexists; reflexivity|].
       exfalso. assert (d4 = 0) by lia. subst d4. discriminate.
     - destruct ((d4 =? 4) || (d4 =? 16) || (d4 =? 32)) eqn:Ea; [eexists; reflexivity|].
       destruct ((d4 =? 12) || (d4 =? 24)) eqn:Eb; [eexists; reflexivity|].
+      destruct (d4 =? 48) eqn:Ec; [eexists; reflexivity|].
       exfalso. cbn [andb negb] in E2. rewrite andb_true_r in E2. apply negb_false_iff in E2. lia. }
   destruct Hnh as (nh & ->). cbn [bind].
   destruct (get8 (skipn (nat_of d4) r)) as [[rsv d5]|] eqn:G; cbn [must bind]; [|discriminate].
